@@ -672,9 +672,15 @@ func init() {
 				window = append(window, OpIndex(n))
 			}
 			if x.Thorough() {
+				// every bookkeeping and ending operation of the alphabet (plus the two restart records). Lifecycle
+				// operations are left out: C09 promises settling "without further input", and a lifecycle event that
+				// arrives while the cleanup is in flight (e.g. BeginFinalizing, valid from any status) is further input
+				// that may legitimately move the channel elsewhere (see DESIGN 9.3, observation e)
 				window = nil
-				for i := range Alphabet {
-					window = append(window, i)
+				for i, op := range Alphabet {
+					if op.Kind == "book" || op.Kind == "end" || op.Name == "CompleteCleanupOnRestart" || op.Name == "Restart" {
+						window = append(window, i)
+					}
 				}
 			}
 			cleanupWindow(x, r, reps, ops, window)
